@@ -78,6 +78,7 @@ from btcsim.core.ctx import Ctx, RunAborted
 from btcsim.core.des import Courier, Sim
 from btcsim.gen import wallets as gw
 from btcsim.ref import fees as ref_fees
+from btcsim.ref import sighash as ref_sighash
 from btcsim.ref import taproot as ref_taproot
 from btcsim.seams import state as st
 from btcsim.seams.disk import SimDisk, SimFile, corrupt_bytes
@@ -945,6 +946,34 @@ def _digests_before(ctx: Ctx, cer: gw.Ceremony) -> Digests:
                         d0 = d1 = sig_hash.legacy(_script_code(spec, psbt_in), tx, i, ht)
                 direct[(i, lh, explicit)] = d0
                 ctx.note("digest", i, lh[:4], ht, d0)
+                if ch.draw(2, "digest.reference?"):
+                    # sampled evidence: the direct digest is the one the defining text spells out
+                    if is_tr:
+                        want_ref = ref_sighash.bip341(tx, i, cer.prevouts, ht, int(bool(lh)), b"", ext)
+                    elif spec.wallet.kind == "segwit0":
+                        want_ref = ref_sighash.bip143(code, tx, i, ht, spec.value)
+                    else:
+                        want_ref = ref_sighash.legacy(_script_code(spec, psbt_in), tx, i, ht)
+                    ctx.check(P09, "direct-equals-definition", d0 == want_ref, lambda: f"input {i} ({spec.wallet.kind}) type {ht}: direct {d0.hex()} != transcription of the defining text {want_ref.hex()}", site=spec.wallet.kind)
+                    if spec.wallet.kind == "legacy":
+                        # a script code with OP_CODESEPARATORs in it: in front, at the end, and as DATA inside a push
+                        # (which stays). Nobody signs this; it is the digest function against the text
+                        seps = _script_code(spec, psbt_in)
+                        seps = b"\xab" * ch.draw(3, "codesep.front") + b"\x02\xab\xab" + seps + b"\xab" * (1 + ch.draw(2, "codesep.back")) + b"\x4c\x01\xab"
+                        with ctx.must_succeed(P09, "direct-digest-computes", "legacy+codesep"):
+                            c0 = sig_hash.legacy(seps, tx, i, ht)
+                        want_ref = ref_sighash.legacy(seps, tx, i, ht)
+                        ctx.check(P09, "direct-equals-definition", c0 == want_ref, lambda: f"input {i} type {ht}, script code with OP_CODESEPARATORs: direct {c0.hex()} != transcription {want_ref.hex()}", site="legacy+codesep")
+                    if is_tr:
+                        # an annex is committed to by every taproot digest of the input that carries one; nothing in a
+                        # psbt holds one, so this is the direct and the precomputed computation against the text
+                        annex = b"\x50" + ch.nbytes(ch.pick([0, 1, 8, 300], "annex.len"), "annex")
+                        with ctx.must_succeed(P09, "direct-digest-computes", "taproot+annex"):
+                            a0 = sig_hash.taproot(tx, i, cer.prevouts, ht, int(bool(lh)), annex, ext)
+                            a1 = sig_hash.taproot(tx, i, cer.prevouts, ht, int(bool(lh)), annex, ext, precomputed)
+                        want_ref = ref_sighash.bip341(tx, i, cer.prevouts, ht, int(bool(lh)), annex, ext)
+                        ctx.check(P09, "direct-equals-definition", a0 == want_ref, lambda: f"input {i} type {ht} with a {len(annex)}-byte annex: direct {a0.hex()} != transcription {want_ref.hex()}", site="taproot+annex")
+                        ctx.check(P09, "precomputed-equals-direct", a1 == a0, lambda: f"input {i} type {ht} with an annex: with PrecomputedTxData {a1.hex()} != direct {a0.hex()}", site="taproot+annex")
                 kw = {} if explicit is None else {"hash_type": ht}
                 with ctx.must_succeed(P09, "psbt-digest-computes", site):
                     d2 = taproot_sig_hash(request, i, leaf_hash=lh, **kw) if is_tr else ecdsa_sig_hash(request, i, **kw)
